@@ -18,7 +18,7 @@ import circuits.core.helpers as _H
 from circuits import Component, Event, Timer, handler, sleep
 
 UNIT = 1024
-T0 = 1000 * UNIT            # virtual start time, in units
+T0 = 4 * UNIT               # virtual start time, in units
 UNTIMED = 10000             # FallBackGenerator waits 10000 s at a time when nothing bounds the wait
 
 
@@ -38,6 +38,10 @@ class wake(Event):
     """the harness ends an unbounded idle wait with this"""
 
 
+class HarnessAbort(BaseException):
+    pass
+
+
 class Ctx:
     """one run of the real loop on the virtual clock"""
     cur = None
@@ -51,6 +55,8 @@ class Ctx:
         self.idle_forever = False
         self.app = None
         self.after_end = False
+        self.waits_this_tick = 0
+        self.abort = None
 
     def time(self):
         return self.now / float(UNIT)
@@ -89,6 +95,13 @@ class VEvent:
 
     def wait(self, timeout=None):
         ctx = Ctx.cur
+        ctx.waits_this_tick += 1
+        if ctx.waits_this_tick > 3:
+            # the fallback generator keeps waiting although the wait was ended: leave its loop (the dispatcher
+            # swallows the exception) and report
+            ctx.abort = ('the idle wait of one loop iteration was re-entered %d times (the loop does not come back)'
+                         % ctx.waits_this_tick)
+            raise HarnessAbort(ctx.abort)
         if timeout is None or timeout >= UNTIMED:
             enc, dur = [-1], None
         else:
@@ -211,9 +224,10 @@ def run_case(case):
         for _ in range(case['n']):
             while ctx.stims and ctx.stims[0][0] <= ctx.now:
                 _deliver(ctx, ctx.stims.pop(0))
+            ctx.waits_this_tick = 0
             app.tick()
             ticks += 1
-            if ctx.idle_forever:
+            if ctx.idle_forever or ctx.abort:
                 break
         final = [[1 if (t.parent is not t) else 0, 1 if t.unregister_pending else 0, enc_units(t.expiry)]
                  for t in ctx.timers]
@@ -230,7 +244,7 @@ def run_case(case):
             app.flush()
         removed = [1 if (t.parent is t and t not in app.components) else 0 for t in ctx.timers]
         return {'log': ctx.log[:nlog], 'tail': ctx.log[nlog:], 'final': final, 'now': endnow, 'ticks': ticks,
-                'idle': 1 if ctx.idle_forever else 0, 'removed': removed,
+                'idle': 1 if ctx.idle_forever else 0, 'removed': removed, 'abort': ctx.abort,
                 'tmo': list(Fraction(_M.TIMEOUT * UNIT).as_integer_ratio())}
     finally:
         _T.time, _M.time, _H.Event, Ctx.cur = saved
@@ -247,6 +261,8 @@ def spec_check(obs):
     (t0 = when it was last armed: created / reset / fired, iv = interval, persistent, alive = registered and no
     unregistration requested).  Records: 1 create, 2 reset, 3 unregister requested, 4 loop iteration (+ idle wait),
     5 timer event dispatched (it was fired by the iteration before)."""
+    if obs.get('abort'):
+        return obs['abort']
     log = obs['log'] + [r for r in obs['tail'] if r[0] == 5]
     T = []
     # attribute each dispatched timer event to the iteration that fired it
@@ -372,7 +388,7 @@ class C09(Prop):
     id = 'C09'
     props_file = 'Props/C09.v'
     imports = ['Model.Timers', 'Model.TimersObs']
-    quick_n = 500
+    quick_n = 300
     thorough_n = 6000
     rule = ('programs over the real Manager loop on a virtual clock: 0-5 timers (intervals from a dyadic grid incl. 0 and '
             'equal values, one-shot / persistent, relative or datetime deadline) created, reset and unregistered by '
@@ -444,14 +460,47 @@ class C09(Prop):
                                      1535, 1536, 2047, 2048, 2049, 3000, 4000, 6000])
                 stims.append([t, 0, rng.randrange(nops)])
             stims.sort(key=lambda s: s[0])
-            cases.append({'n': rng.choice([8, 14, 20, 30, 45]), 'stims': stims, 'ops': ops, 'onfire': onfire, 'gs': gs})
+            cases.append({'n': rng.choice([8, 14, 20, 30]), 'stims': stims, 'ops': ops, 'onfire': onfire, 'gs': gs})
+        gd = self.stats.setdefault('generated_ops', {})
+        for c in cases:
+            for o in [o for l in c['ops'] + c['onfire'] for o in l] + [o for g in c['gs'] for st in g if st[0] == 'ops' for o in st[1]]:
+                gd[o[0]] = gd.get(o[0], 0) + 1
+            for g in c['gs']:
+                for st in g:
+                    gd['task_' + st[0]] = gd.get('task_' + st[0], 0) + 1
+            gd['external_events'] = gd.get('external_events', 0) + len(c['stims'])
         return cases
 
     # ---- implementation
     def impl(self, case):
         obs = run_case(case)
         self._side[common.canon(case)] = obs      # the model needs the recorded schedule and the TIMEOUT constant
+        st = self.stats.setdefault('trace_distribution', {})
+        def bump(k, n=1):
+            st[k] = st.get(k, 0) + n
+        bump('runs')
+        bump('timers_created', len(obs['final']))
+        prev_fired = False
+        for r in obs['log']:
+            if r[0] == 5:
+                bump('timer_events_dispatched')
+            elif r[0] == 4:
+                bump('iterations')
+                w = r[2]
+                bump('wait_none' if not w else 'wait_unbounded' if w[0] == -1 else 'wait_TIMEOUT_tasks' if w[0] == -2
+                     else 'wait_until_timer_expiry')
+            elif r[0] == 2:
+                bump('resets')
+            elif r[0] == 3:
+                bump('unregister_requests')
+        if obs['idle']:
+            bump('runs_ending_idle_forever')
+        if any(f[1] for f in obs['final']):
+            bump('runs_ending_with_unregistration_pending')
         return obs
+
+    def search(self, rng, tier):
+        return self.generate(rng, 1500, tier)
 
     # ---- model
     def model_term(self, case):
